@@ -192,6 +192,19 @@ class Program:
                         if isinstance(c, ClassInfo):
                             c.patches[t.attr] = (m, st.value)
 
+    def add_virtual_module(self, name: str, src: str) -> Module:
+        """A user-side module (classes deriving from the library's documented extension points),
+        analysed together with the repository but never part of it."""
+        if name in self.modules:
+            return self.modules[name]
+        tree = ast.parse(src, filename=f"<{name}>")
+        m = Module(name, f"<{name}>", f"<{name}>", src, tree, lines=src.splitlines())
+        self.modules[name] = m
+        self._index_module(m)
+        for c in m.classes.values():
+            c.bases = [self.resolve_expr(m, b) or norm(b) for b in c.base_exprs]
+        return m
+
     def _index_module(self, m: Module):
         pkg_parts = m.name.split(".")
         is_pkg = m.path.endswith("__init__.py")
